@@ -370,6 +370,8 @@ void getOffsetAndCount(const Tag &tag, const DataArray &array, NDSize &offset, N
         position.pop_back();
         extent.pop_back();
     }
+    // the padding below is expressed in the dimensions' own units: a tag unit applies to the entries the tag gave
+    size_t given = position.size();
     while (position.size() < dim_count) {
         position.push_back(get<0>(max_extents[position.size()]));
         extent.push_back(get<1>(max_extents[extent.size()]));
@@ -378,7 +380,7 @@ void getOffsetAndCount(const Tag &tag, const DataArray &array, NDSize &offset, N
     if (units.size() == 0) {
         units = std::vector<std::string>(position.size(), "none");
     }
-    while (units.size() > position.size()) {
+    while (units.size() > given) {
         units.pop_back();
     }
     while (units.size() < position.size()) {
